@@ -30,6 +30,7 @@ type VEnv struct {
 	KeyPOS *sdk.KVStoreKey
 	Pubs   []crypto.PublicKey
 	Addrs  []sdk.Address
+	Direct sdk.Int // coins users sent to the staked-pool address directly (C04 counts them apart from stake)
 }
 
 const VDenom = sdk.DefaultStakeDenom
@@ -47,7 +48,7 @@ func vMakeCodec() *codec.Codec {
 
 // VNewEnv builds keepers, default params, an empty supply and nAcc plain accounts (no balance yet).
 func VNewEnv(nAcc int) *VEnv {
-	e := &VEnv{}
+	e := &VEnv{Direct: sdk.ZeroInt()}
 	e.KeyAcc = sdk.NewKVStoreKey(auth.StoreKey)
 	e.KeyPOS = sdk.NewKVStoreKey(types.ModuleName)
 	e.MS = vms.New(e.KeyAcc, e.KeyPOS, sdk.ParamsKey, sdk.ParamsTKey)
